@@ -33,7 +33,7 @@ type c02Witness struct {
 func init() {
 	core.Register(&core.Check{
 		ID:   "C02",
-		Rule: "reference trees: for each of 35 positions where a Reference Object may stand (components of 9 kinds, schema applicators, operation/path-item parameters, request body, responses, response/encoding headers, media-type/parameter/header examples, links, callbacks, path items) x form (internal component, whole external file, fragment of an external file) x shape (direct, chain through an alias component, chain through a second file in another directory, back-reference from that file into the root) x spelling (plain, ./, zz/../, absolute, YAML file) one single-site tree, plus combined trees planting all positions at once, cycles (self, mutual, across files, closed through properties/items/allOf/additionalProperties), a diamond, the same $ref string used from two files, and negative trees (dangling component, missing file, missing fragment, wrong kind) that must fail to load; entry points LoadFromFile and LoadFromDataWithPath over an in-memory file system (relative and absolute roots), LoadFromData for internal-only trees, and a real-file pass through the default reader in a scratch directory. Every referenceable object carries a unique marker, so the marker observed at a site identifies the object it resolved to. Distinct = (position, form, shape, spelling, entry point); non-trivial = at least one cross-file or chained or cyclic reference.",
+		Rule: "reference trees: for each of 35 positions where a Reference Object may stand (components of 9 kinds, schema applicators, operation/path-item parameters, request body, responses, response/encoding headers, media-type/parameter/header examples, links, callbacks, path items) x form (internal component, whole external file, fragment of an external file) x shape (direct, chain through an alias component, chain through a second file in another directory, back-reference from that file into the root) x spelling (plain, ./, zz/../, absolute, YAML file) one single-site tree, plus combined trees planting all positions at once, cycles (self, mutual, across files, closed through properties/items/allOf/additionalProperties), a diamond, the same $ref string used from two files, whole-file objects of 5 kinds in another directory whose own relative references must resolve against their location (decoys next to the root), and negative trees (dangling component, missing file, missing fragment, wrong kind) that must fail to load; one Loader reused after a load that failed inside reference resolution (5 kinds x 3 x 3 entry points); entry points LoadFromFile and LoadFromDataWithPath over an in-memory file system (relative and absolute roots), LoadFromData for internal-only trees, and a real-file pass through the default reader in a scratch directory. Every referenceable object carries a unique marker, so the marker observed at a site identifies the object it resolved to. Distinct = (position, form, shape, spelling, entry point); non-trivial = at least one cross-file or chained or cyclic reference.",
 		Assumptions: []string{
 			"markers live in fields that survive loading (title / description / summary)",
 			"termination is judged by a read counter (at most 50 reads per file) and the CPU-time watchdog",
@@ -164,6 +164,10 @@ func runC02(c *core.Ctx) {
 		}
 		idx++
 	}
+	if c.Mine(idx) {
+		c02LoaderReuse(c)
+	}
+	idx++
 }
 
 // c02Special: cycles, diamond, same ref string from two files.
@@ -250,6 +254,50 @@ func c02Special() []refTree {
 		{Position: "nested:Site.n", Kind: "schema", Form: "internal", Shape: "same-name-two-files", Ref: "#/components/schemas/Node", Marker: "MARKOTHERNODE"},
 		{Position: "nested:Node.next", Kind: "schema", Form: "internal", Shape: "same-name-two-files", Ref: "#/components/schemas/Node", Marker: "MARKROOTNODE"},
 	})
+	// a whole-file object in another directory whose own references are relative to ITS location; decoys with the same
+	// relative names sit where a resolution against the root's directory would land
+	for _, k := range []struct{ kind, coll string }{{"schema", "schemas"}, {"parameter", "parameters"}, {"header", "headers"}, {"requestBody", "requestBodies"}, {"response", "responses"}} {
+		nested := gen.S{"$ref": "nested/s.json"}
+		nestedFrag := gen.S{"$ref": "nested/lib.json#/components/schemas/T"}
+		marker := "MARKWHOLE" + k.kind
+		var obj gen.S
+		var inner []refPlan
+		np := func(which, ref, want string) refPlan {
+			return refPlan{Position: "nested2:" + k.kind + ":" + which, Kind: "schema", Form: "whole-file", Shape: "whole-file-with-nested-relative-refs", Ref: ref, Marker: want}
+		}
+		switch k.kind {
+		case "schema":
+			obj = gen.S{"type": "object", "title": marker, "properties": gen.S{"a": nested, "b": nestedFrag}}
+			inner = []refPlan{np("a", "nested/s.json", "NESTED"), np("b", "nested/lib.json#/components/schemas/T", "NESTEDT")}
+		case "parameter":
+			obj = gen.S{"name": "p", "in": "query", "description": marker, "schema": nested}
+			inner = []refPlan{np("schema", "nested/s.json", "NESTED")}
+		case "header":
+			obj = gen.S{"description": marker, "schema": nestedFrag}
+			inner = []refPlan{np("schema", "nested/lib.json#/components/schemas/T", "NESTEDT")}
+		case "requestBody":
+			obj = gen.S{"description": marker, "content": gen.S{"application/json": gen.S{"schema": nested, "examples": gen.S{"e": gen.S{"$ref": "nested/ex.json"}}}}}
+			inner = []refPlan{np("schema", "nested/s.json", "NESTED"), np("example", "nested/ex.json", "NESTEDEX")}
+		case "response":
+			obj = gen.S{"description": marker, "content": gen.S{"application/json": gen.S{"schema": nestedFrag}}, "headers": gen.S{"H": gen.S{"$ref": "nested/h.json"}}}
+			inner = []refPlan{np("schema", "nested/lib.json#/components/schemas/T", "NESTEDT"), np("header", "nested/h.json", "NESTEDH")}
+		}
+		rootW := refRootSkeleton()
+		dig(rootW, "components", k.coll)["Site"] = gen.S{"$ref": "far/away/t.json"}
+		files := map[string]gen.S{
+			"w/far/away/t.json":          obj,
+			"w/far/away/nested/s.json":   {"type": "string", "title": "NESTED"},
+			"w/far/away/nested/lib.json": lib("nested", gen.S{"T": gen.S{"type": "string", "title": "NESTEDT"}}),
+			"w/far/away/nested/ex.json":  {"summary": "NESTEDEX", "value": 1.0},
+			"w/far/away/nested/h.json":   {"description": "NESTEDH", "schema": gen.S{"type": "string"}},
+			"w/nested/s.json":            {"type": "string", "title": "DECOY"},
+			"w/nested/lib.json":          lib("decoy", gen.S{"T": gen.S{"type": "string", "title": "DECOY"}}),
+			"w/nested/ex.json":           {"summary": "DECOY", "value": 1.0},
+			"w/nested/h.json":            {"description": "DECOY", "schema": gen.S{"type": "string"}},
+		}
+		plans := append([]refPlan{{Position: "components." + k.coll + ".Site", Kind: k.kind, Form: "whole-file", Shape: "whole-file-with-nested-relative-refs", Ref: "far/away/t.json", Marker: marker}}, inner...)
+		mk(rootW, files, plans)
+	}
 	// JSON pointer escapes in component names
 	root5 := refRootSkeleton()
 	dig(root5, "components", "schemas")["rate~1min"] = gen.S{"type": "object", "title": "MARKTILDE1"}
@@ -423,7 +471,7 @@ func c02Tree(c *core.Ctx, t refTree, negative bool) {
 			pl := t.Plans[i]
 			var ref, marker string
 			var resolved, found bool
-			if strings.HasPrefix(pl.Position, "nested:") {
+			if strings.HasPrefix(pl.Position, "nested:") || strings.HasPrefix(pl.Position, "nested2:") {
 				ref, marker, resolved, found = c02Nested(d, pl.Position)
 			} else {
 				p := positions[pl.Position]
@@ -467,7 +515,58 @@ func entryClass(name string) string {
 }
 
 // c02Nested reads sites that live below resolved values (special trees).
+// c02Nested2: a reference inside the whole-file object planted at components.<coll>.Site.
+func c02Nested2(d *openapi3.T, pos string) (string, string, bool, bool) {
+	f := strings.Split(pos, ":")
+	if len(f) != 3 || d.Components == nil {
+		return "", "", false, false
+	}
+	kind, which := f[1], f[2]
+	mt := func(c openapi3.Content) *openapi3.MediaType {
+		if c == nil {
+			return nil
+		}
+		return c["application/json"]
+	}
+	switch kind {
+	case "schema":
+		if s := d.Components.Schemas["Site"]; s != nil && s.Value != nil {
+			return schemaInfo(s.Value.Properties[which])
+		}
+	case "parameter":
+		if p := d.Components.Parameters["Site"]; p != nil && p.Value != nil {
+			return schemaInfo(p.Value.Schema)
+		}
+	case "header":
+		if h := d.Components.Headers["Site"]; h != nil && h.Value != nil {
+			return schemaInfo(h.Value.Schema)
+		}
+	case "requestBody":
+		if b := d.Components.RequestBodies["Site"]; b != nil && b.Value != nil {
+			if m := mt(b.Value.Content); m != nil {
+				if which == "example" {
+					return exInfo(m.Examples["e"])
+				}
+				return schemaInfo(m.Schema)
+			}
+		}
+	case "response":
+		if r := d.Components.Responses["Site"]; r != nil && r.Value != nil {
+			if which == "header" {
+				return headerInfo(r.Value.Headers["H"])
+			}
+			if m := mt(r.Value.Content); m != nil {
+				return schemaInfo(m.Schema)
+			}
+		}
+	}
+	return "", "", false, false
+}
+
 func c02Nested(d *openapi3.T, pos string) (string, string, bool, bool) {
+	if strings.HasPrefix(pos, "nested2:") {
+		return c02Nested2(d, pos)
+	}
 	get := func(name string) *openapi3.SchemaRef { return d.Components.Schemas[name] }
 	switch pos {
 	case "nested:Zed.p.q":
@@ -490,4 +589,111 @@ func c02Nested(d *openapi3.T, pos string) (string, string, bool, bool) {
 		return schemaInfo(s.Value.Properties["next"])
 	}
 	return "", "", false, false
+}
+
+// c02LoaderReuse: one Loader used for a load that fails inside reference resolution and then for a valid document that
+// uses the same reference strings at another location: the second load must resolve everything, through every pair of
+// entry points.
+func c02LoaderReuse(c *core.Ctx) {
+	type kindT struct {
+		coll   string
+		bad    gen.S // component B that fails while being resolved
+		good   gen.S // component B of the valid document, marked
+		marker func(d *openapi3.T) (string, bool)
+	}
+	missing := gen.S{"$ref": "#/components/schemas/Missing"}
+	kinds := []kindT{
+		{"schemas", gen.S{"type": "object", "properties": gen.S{"p": missing}}, gen.S{"type": "object", "title": "MARKGOOD"}, func(d *openapi3.T) (string, bool) {
+			if s := d.Components.Schemas["A"]; s != nil && s.Value != nil {
+				return s.Value.Title, true
+			}
+			return "", false
+		}},
+		{"parameters", gen.S{"name": "p", "in": "query", "schema": missing}, gen.S{"name": "p", "in": "query", "description": "MARKGOOD", "schema": gen.S{"type": "string"}}, func(d *openapi3.T) (string, bool) {
+			if s := d.Components.Parameters["A"]; s != nil && s.Value != nil {
+				return s.Value.Description, true
+			}
+			return "", false
+		}},
+		{"headers", gen.S{"schema": missing}, gen.S{"description": "MARKGOOD", "schema": gen.S{"type": "string"}}, func(d *openapi3.T) (string, bool) {
+			if s := d.Components.Headers["A"]; s != nil && s.Value != nil {
+				return s.Value.Description, true
+			}
+			return "", false
+		}},
+		{"responses", gen.S{"description": "d", "content": gen.S{"application/json": gen.S{"schema": missing}}}, gen.S{"description": "MARKGOOD"}, func(d *openapi3.T) (string, bool) {
+			if s := d.Components.Responses["A"]; s != nil && s.Value != nil && s.Value.Description != nil {
+				return *s.Value.Description, true
+			}
+			return "", false
+		}},
+		{"requestBodies", gen.S{"content": gen.S{"application/json": gen.S{"schema": missing}}}, gen.S{"description": "MARKGOOD", "content": gen.S{"application/json": gen.S{}}}, func(d *openapi3.T) (string, bool) {
+			if s := d.Components.RequestBodies["A"]; s != nil && s.Value != nil {
+				return s.Value.Description, true
+			}
+			return "", false
+		}},
+	}
+	mk := func(coll string, b gen.S) []byte {
+		doc := gen.S{"openapi": "3.0.3", "info": gen.S{"title": "t", "version": "1"}, "paths": gen.S{}, "components": gen.S{coll: gen.S{"A": gen.S{"$ref": "#/components/" + coll + "/B"}, "B": b}}}
+		return []byte(mustJSON(doc))
+	}
+	entries := []string{"LoadFromData", "LoadFromDataWithPath", "LoadFromFile"}
+	for _, k := range kinds {
+		bad, good := mk(k.coll, k.bad), mk(k.coll, k.good)
+		files := map[string]string{"w/bad.json": string(bad), "v/good.json": string(good)}
+		for _, e1 := range entries {
+			for _, e2 := range entries {
+				desc := fmt.Sprintf("loader reuse kind=%s first(fails)=%s then=%s", k.coll, e1, e2)
+				c.Begin(desc)
+				rd := &c02reader{files: files, limit: 100}
+				l := openapi3.NewLoader()
+				l.IsExternalRefsAllowed = true
+				l.ReadFromURIFunc = rd.fn()
+				load := func(entry string, data []byte, loc string) (*openapi3.T, error) {
+					switch entry {
+					case "LoadFromData":
+						return l.LoadFromData(data)
+					case "LoadFromDataWithPath":
+						return l.LoadFromDataWithPath(data, &url.URL{Path: loc})
+					}
+					return l.LoadFromFile(loc)
+				}
+				var d *openapi3.T
+				var err1, err2 error
+				c.Eval()
+				pi := core.Guard(func() {
+					_, err1 = load(e1, bad, "w/bad.json")
+					d, err2 = load(e2, good, "v/good.json")
+				})
+				w := c02Witness{Entry: e1 + " then " + e2, Root: "v/good.json", Files: files}
+				if pi != nil {
+					c.Violate(core.PanicFeatures(pi), w, desc+"\n"+pi.Value+"\n"+core.Truncate(pi.Stack, 2000))
+					continue
+				}
+				c.Distinct(desc)
+				c.Cover("loader_reuse", k.coll)
+				feat := func(kind string) map[string]string {
+					return map[string]string{"kind": kind, "shape": "loader-reused-after-failed-load", "position": "components." + k.coll + ".A", "entry": e2, "first_entry": e1}
+				}
+				if err1 == nil {
+					c.Violate(feat("bad_reference_loaded"), w, desc+"\nthe first document (a reference to a missing schema inside B) loaded without error")
+					continue
+				}
+				if err2 != nil {
+					w.Got = err2.Error()
+					c.Violate(feat("valid_tree_fails_to_load"), w, desc+"\nsecond load: "+err2.Error())
+					continue
+				}
+				m, ok := k.marker(d)
+				w.Got, w.Want = m, "MARKGOOD"
+				switch {
+				case !ok:
+					c.Violate(feat("unresolved_after_successful_load"), w, desc+"\ncomponents."+k.coll+".A was left unresolved by the second load")
+				case m != "MARKGOOD":
+					c.Violate(feat("resolved_to_wrong_object"), w, desc+"\nresolved to the object marked "+m)
+				}
+			}
+		}
+	}
 }
